@@ -316,8 +316,8 @@ def jobs(tier):
 
 
 def all_jobs(tier):
-    from . import extra_misc
-    return jobs(tier) + extra_misc.jobs_for('C08', tier)
+    from . import extra_misc, mnode
+    return jobs(tier) + extra_misc.jobs_for('C08', tier) + mnode.jobs_for('C08', tier)
 
 
 def main(report, tier):
